@@ -13,6 +13,7 @@ Listed findings are attributed by mechanism only (defect models in classify()); 
 violation.
 """
 import copy
+import json
 import random
 
 from vf import e1run
@@ -136,7 +137,7 @@ def classify_k4(mode, ref, got):
                     # (every forloop layer of the Context is copied into the captured layer) beats an outer binding
                     # that is nearer than that loop, e.g. {% for z %}{% with z=.. %}{% component %}{% fill %}{{ z }}
                     k4 = True
-                elif exp is not None and ec and not oc and recd.get("lexical"):
+                elif exp is not None and ec and not oc and (recd.get("lexical") or tuple(exp) in {tuple(x) for x in recd.get("lexical_captured_sites", [])}):
                     # (c) lexical scoping (isolated / only): the captured layer is inserted below layers of the outer template
                     k4 = True
                 # (b) both captured: the merged layer is built by dict.update in an order that lets the copy of an
@@ -326,14 +327,171 @@ def gen(rng):
     return None
 
 
+# ---------------------------------------------------------------------------------------
+# Loop state: {% for %} binds `forloop` (counter, parentloop chain) like any other variable of its layer.  Components are
+# rendered deferred, from a snapshot of the Context taken at the tag, while Django keeps mutating the live forloop dicts:
+# what a component template / a fill prints for forloop.counter0 and the parentloop chain must be the state AT THE TAG.
+CHAIN = ".".join("{{ forloop." + "parentloop." * k + "counter0 }}" for k in range(5))
+
+
+def gen_loopstate(rng):
+    return {
+        "kind": "loopstate",
+        "outer": [rng.randint(1, 3) for _ in range(rng.randint(1, 3))],  # loops around the component tag (item counts)
+        "between": [rng.randint(1, 3) for _ in range(rng.choice([0, 0, 1, 2]))],  # loops between tag and fill
+        "host": rng.choice(["page", "component", "component-in-component"]),
+        "pad": [rng.choice(["", "with", "if"]) for _ in range(3)],
+        "mode": rng.choice(["django", "isolated"]),
+    }
+
+
+def _chain(idx):
+    """idx: loop indices innermost first"""
+    return ".".join([str(i) for i in idx] + [""] * 5)[: 0] or ".".join(([str(i) for i in idx] + [""] * 5)[:5])
+
+
+def run_loopstate(env, rec, case):
+    env.n += 1
+    n = env.n
+    mode = case["mode"]
+    inner_name, host_name, host2_name = f"ls{n}_inner", f"ls{n}_host", f"ls{n}_host2"
+    explicit = bool(case["between"])
+    # the inner component prints the chain itself only in django mode (in isolated mode the forwarded loop layer is the
+    # listed finding K1); its slot default is rendered in the component's own context, so the same applies
+    inner_t = ("I(" + CHAIN + ")" if mode == "django" else "I()") + '{% slot "s" default %}D{% endslot %}'
+    if explicit:
+        body = ""
+        for d, cnt in enumerate(case["between"]):
+            body += "{% for b" + str(d) + ' in "' + "xyz"[:cnt] + '" %}'
+        # (one fill per iteration needs distinct names: only the LAST iteration's fill survives by name, so name it by the
+        # loop variables)
+        body += "{% fill name=" + ("b0" if len(case["between"]) == 1 else "b1") + " %}F(" + CHAIN + "){% endfill %}"
+        body += "{% endfor %}" * len(case["between"])
+        slots = "".join('{% slot "' + ch + '" %}{% endslot %}' for ch in "xyz")
+        inner_t = ("I(" + CHAIN + ")" if mode == "django" else "I()") + slots
+        tag = '{% component "' + inner_name + '" %}' + body + "{% endcomponent %}"
+    else:
+        tag = '{% component "' + inner_name + '" %}F(' + CHAIN + "){% endcomponent %}"
+    src = tag
+    for d, cnt in reversed(list(enumerate(case["outer"]))):
+        pad = case["pad"][d]
+        if pad == "with":
+            src = '{% with w="1" %}' + src + "{% endwith %}"
+        elif pad == "if":
+            src = "{% if True %}" + src + "{% endif %}"
+        src = "{% for a" + str(d) + ' in "' + "pqr"[:cnt] + '" %}' + src + "|{% endfor %}"
+    Inner = type(f"Ls{n}Inner", (env.Component,), {"template": inner_t})
+    env.registry.register(inner_name, Inner)
+    names = [inner_name]
+    page = src
+    if case["host"] != "page":
+        Host = type(f"Ls{n}Host", (env.Component,), {"template": "H[" + src + "]"})
+        env.registry.register(host_name, Host)
+        names.append(host_name)
+        page = '{% component "' + host_name + '" / %}'
+        if case["host"] == "component-in-component":
+            Host2 = type(f"Ls{n}Host2", (env.Component,), {"template": "G[" + page + "]"})
+            env.registry.register(host2_name, Host2)
+            names.append(host2_name)
+            page = '{% component "' + host2_name + '" / %}'
+    # expected
+    import itertools as _it
+
+    k4v = bool(case.get("_k4_variant"))
+    out = []
+    for outer_idx in _it.product(*[range(c) for c in case["outer"]]):
+        at_tag = list(reversed(outer_idx))  # innermost first
+        piece = "I(" + _chain(at_tag) + ")" if mode == "django" else "I()"
+        if explicit:
+            # fills are keyed by name: for each name the LAST iteration that produced it wins; slots x,y,z in order
+            last = {}
+            for b_idx in _it.product(*[range(c) for c in case["between"]]):
+                name = "xyz"[b_idx[0] if len(case["between"]) == 1 else b_idx[1]]
+                last[name] = b_idx
+            dup = len(case["between"]) == 2 and case["between"][0] > 1
+            for ch in "xyz":
+                if ch in last:
+                    # (k4v: defect model of the listed finding - the captured layer sits BELOW the live layers of the
+                    # enclosing loops, so `forloop` is the enclosing loop's)
+                    piece += "F(" + _chain(at_tag if k4v else list(reversed(last[ch])) + at_tag) + ")"
+            if dup:
+                piece = None  # the same fill name produced twice: TemplateSyntaxError expected, not judged here
+        else:
+            piece += "F(" + _chain(at_tag) + ")"
+        out.append(piece)
+    try:
+        if any(p is None for p in out):
+            rec.count("loopstate_duplicate_fill_names_skipped")
+            return False
+        # loops close innermost first: "|" after each iteration of each loop
+        def close(depth, idxs):
+            return ""
+
+        # rebuild expected text by simulating the nesting
+        def emit(d, prefix):
+            if d == len(case["outer"]):
+                return out[emit.k]
+            txt = ""
+            for i in range(case["outer"][d]):
+                if d == len(case["outer"]) - 1:
+                    txt += out[emit.k] + "|"
+                    emit.k += 1
+                else:
+                    txt += emit(d + 1, prefix + [i]) + "|"
+            return txt
+
+        emit.k = 0
+        expected = emit(0, [])
+        if case["host"] != "page":
+            expected = "H[" + expected + "]"
+        if case["host"] == "component-in-component":
+            expected = "G[" + expected + "]"
+        with env.override_settings(COMPONENTS={"context_behavior": mode, "autodiscover": False}):
+            try:
+                raw = env.Template(page).render(env.Context({}))
+            except Exception as e:  # noqa: BLE001
+                rec.violation("loopstate-render-raised-" + type(e).__name__, case, {"what": str(e)[:300], "page": page, "host": src})
+                return True
+        got = e1run.normalise(raw)
+        rec.observe("renders-compared")
+        rec.count("loopstate_renders")
+        if case.get("_k4_variant"):
+            return got == expected
+        if got != expected:
+            detail = {"what": f"expected {expected!r} got {got!r}", "template": src, "inner": inner_t}
+            if mode == "isolated" and explicit and case["host"] != "page":
+                # exact defect model of C03-fill-captured-layer-placement for this family
+                env2_case = dict(case, _k4_variant=True)
+                if run_loopstate(env, rec, env2_case) and rec.known_finding(K4, case, {"what": detail["what"][:300]}):
+                    return True
+            rec.violation("loop-state-not-as-at-the-tag", case, detail)
+        return True
+    finally:
+        for nm in names:
+            try:
+                env.registry.unregister(nm)
+            except Exception:  # noqa: BLE001
+                pass
+
+
 def plan(tier, seed):
     n = 12000 if tier == "quick" else 400000
     nshard = 15 if tier == "quick" else 32
-    return [{"name": f"gen_{i:02d}", "n": n // nshard, "idx": i} for i in range(nshard)]
+    shards = [{"name": f"gen_{i:02d}", "n": n // nshard, "idx": i} for i in range(nshard)]
+    shards.append({"name": "loopstate", "kind": "loopstate", "n": 1500 if tier == "quick" else 40000, "idx": 99})
+    return shards
 
 
 def run_shard(spec, rec):
     env = e1run.E1Env()
+    if spec.get("kind") == "loopstate":
+        rec.require("renders-compared")
+        rng = random.Random(f"{spec['seed']}-c03-loopstate")
+        for i in range(spec["n"]):
+            case = gen_loopstate(rng)
+            nt = run_loopstate(env, rec, case)
+            rec.case(("loopstate", json.dumps(case, sort_keys=True)), nontrivial=bool(nt) and len(case["outer"]) >= 2)
+        return
     rec.require("renders-compared", "context-snapshots-compared")
     rng = random.Random(f"{spec['seed']}-c03-{spec['idx']}")
     for i in range(spec["n"]):
@@ -381,4 +539,7 @@ def replay(case, rec):
     rec.case(("replay", 1))
     rec.case(("replay", 2))
     rec.observe("context-snapshots-compared")
+    if case.get("kind") == "loopstate":
+        run_loopstate(env, rec, case)
+        return
     check_program(env, rec, case["program"], case.get("seed"), do_shrink=False)
